@@ -3,6 +3,7 @@ package main
 import (
 	"os"
 
+	"verifharness/props/c06"
 	"verifharness/props/c20"
 	"verifharness/props/live"
 	"verifharness/vh"
@@ -20,6 +21,12 @@ func main() {
 	done := make(chan struct{})
 	go func() { defer close(done); live.RunLegs(run, "c20", c20LiveSpecs(run)) }()
 	c20.RunD1(run)
+	// end-of-block processing of passed governance proposals that carry an Ethereum transaction (in-process: the failure is a
+	// panic / error of FinalizeBlock, recovered by the scenario)
+	for gi := 0; gi < run.N(8, 80); gi++ {
+		c06.GovReplay(run, gi, true)
+	}
+	run.Floor("passed governance proposals with an Ethereum transaction run by the end blocker", run.Get("governance_proposals_with_an_ethereum_tx_run_by_the_end_blocker"), int64(run.N(6, 60)))
 	<-done
 	run.Finish()
 }
